@@ -95,6 +95,97 @@ NONTRIVIAL = {
 }
 
 
+NSCHED_CASES = {"quick": 6, "thorough": 40}
+NSCHED_PER_CASE = {"quick": 25, "thorough": 60}
+
+
+def tlc_schedules(tier):
+    """Spec -> impl: samples behaviours of Runner.tla on small seeded cases and turns their
+    external choices into harness schedules for the same cases."""
+    import random
+    import copy
+    from tla_literal import lit
+    rng = random.Random(seed() * 31 + 5)
+    out = []
+    info = []
+    k = 0
+    tries = 0
+    while k < NSCHED_CASES[tier] and tries < 2000:
+        tries += 1
+        c = gen_cases.gen_case(rng, f"m{k}", rng.choice(["mixed", "retry", "serial", "limits", "failfast"]))
+        ex = c["expect"]
+        nsc = len(ex["scen"])
+        if not (2 <= nsc <= 3) or any(len(s["steps"]) > 2 for s in ex["scen"].values()) \
+                or any(s["budget"] > 1 for s in ex["scen"].values()) or len(ex["feats"]) > 2 \
+                or ex["limit"] > 3:
+            continue
+        # model time: one tick per delay
+        cfg = copy.deepcopy(ex)
+        for s in cfg["scen"].values():
+            s["delay_us"] = 1 if s["delay_us"] > 0 else 0
+        mod = f"GenCase{k}"
+        d = os.path.join(WORK, "gencases")
+        os.makedirs(d, exist_ok=True)
+        with open(os.path.join(d, mod + ".tla"), "w") as f:
+            f.write(f"---- MODULE {mod} ----\nEXTENDS Gen_Runner\nTheCase == {lit(cfg)}\n====\n")
+        with open(os.path.join(d, mod + ".cfg"), "w") as f:
+            f.write("SPECIFICATION GSpec\nCONSTANTS\n  Cfg <- TheCase\n  MaxFail = 2\n  IdleYields = TRUE\n"
+                    "  SerialExclusive = TRUE\n  LogPoints = {}\n  MaxLogs = 0\nINVARIANTS Dump\nCHECK_DEADLOCK FALSE\n")
+        r = tlc(os.path.join(d, mod + ".tla"), os.path.join(d, mod + ".cfg"), workers=1,
+                simulate={"num": NSCHED_PER_CASE[tier], "depth": 400, "seed": seed() * 100 + k},
+                timeout=900, tag=f"gensched{k}", env={"JAVA_TOOL_OPTIONS": "-DTLA-Library=" + SPEC})
+        require_ok(r, f"Gen_Runner {mod}")
+        scheds = tlc_lines(r["out"], "REPLAY")
+        seen = set()
+        n = 0
+        for sc in scheds:
+            if sc["viol"]:
+                raise ToolError(f"Gen_Runner {mod}: the model violates the monitor: {sc['viol']}")
+            key = json.dumps(sc["sched"])
+            if key in seen:
+                continue
+            seen.add(key)
+            hc = copy.deepcopy(c)
+            hc["id"] = f"m{k}.{n}"
+            hc["pipelines"] = []
+            for p in hc["parser"]:
+                if p["item"] == "feat":
+                    p["pending"] = 1
+            gates = []
+            outcomes = {}
+            for g in sc["sched"]:
+                if g["k"] == "gate":
+                    suffix = {"bw_gate": "world", "sw_gate": "world", "b_gate": "before",
+                              "a_gate": "after"}.get(g["pc"], g["label"])
+                    gates.append(f"{g['s']}#{g['cur']}:{suffix}")
+                    if g["fails"]:
+                        atts = outcomes.setdefault(g["s"], [])
+                        while len(atts) <= g["cur"]:
+                            atts.append({"steps": {}})
+                        a = atts[g["cur"]]
+                        if suffix == "world":
+                            a["world"] = "err"
+                        elif suffix == "before":
+                            a["before"] = "panic_string"
+                        elif suffix == "after":
+                            a["after"] = "panic_string"
+                        else:
+                            a["steps"][g["label"]] = "panic_string"
+                elif g["k"] == "parser":
+                    gates.append(f"parser:{g['cur']}:1")
+                elif g["k"] == "tick":
+                    gates.append("@sleep")
+            hc["outcomes"] = outcomes
+            hc["schedule"] = {"seed": 1, "gates": gates, "sleep_pct": 0,
+                              "sleep_ms": max([s["delay_us"] for s in ex["scen"].values()] + [0]) // 1000 + 3,
+                              "multi_pct": 0}
+            out.append(hc)
+            n += 1
+        info.append({"case": mod, "scenarios": nsc, "behaviours_sampled": len(scheds), "distinct_schedules": n})
+        k += 1
+    return out, info
+
+
 def run_engine(tier):
     cached = cache_get("runner", tier)
     if cached:
@@ -105,6 +196,8 @@ def run_engine(tier):
     mc = engine_runner_mc.model_check(tier)
     n = NCASES[tier]
     cases = gen_cases.gen_cases(seed(), n)
+    sched_cases, sched_info = tlc_schedules(tier)
+    cases = cases + sched_cases
     shards = SHARDS[tier]
     # keep twin pairs adjacent: shard by pair-preserving chunks instead
     parts = []
@@ -139,6 +232,9 @@ def run_engine(tier):
     # keep the cases that violate something, for replay files
     bad_ids = {v["case"] for v in viols}
     res = {"mc": mc, "ncases": len(per_case), "nrecords": nrec, "viols": viols,
+           "schedules_from_tlc": len(sched_cases), "schedule_cases": sched_info,
+           "schedules_diverged": sum(1 for c in sched_cases
+                                     if summaries.get(c["id"], {}).get("stats", {}).get("schedDiverged", 0)),
            "per_case": per_case, "bad_cases": [c for c in cases if c["id"] in bad_ids][:200],
            "sample_case": cases[3], "wall_s": time.time() - t0}
     cache_put("runner", tier, res)
@@ -175,6 +271,9 @@ def check_prop(prop):
                            "tlc -workers 1 Trace_Runner.tla",
             "traces_validated_against_impl": res["ncases"],
             "trace_records": res["nrecords"],
+            "schedules_from_tlc": res.get("schedules_from_tlc", 0),
+            "schedules_from_tlc_not_followed_by_the_code": res.get("schedules_diverged", 0),
+            "schedule_cases": res.get("schedule_cases", []),
             "evaluations": res["ncases"],
             "distinct_nontrivial": nontriv,
             "rule": "cases are generated from the seed (lib/gen_cases.py), distinct by construction; "
